@@ -9,6 +9,7 @@ import (
 	"path/filepath"
 	"sort"
 	"strings"
+	"sync"
 )
 
 // Ctx is the per-run context of one correspondence suite: it owns the single PRNG, the
@@ -32,6 +33,7 @@ type Ctx struct {
 	Known    []Violation
 	Notes    map[string]interface{}
 	ViolCount map[string]int
+	vmu       sync.Mutex
 }
 
 // Violation is a failure of a property's own predicate observed on the real implementation
@@ -81,6 +83,8 @@ func (c *Ctx) Class(name string)   { c.Classes[name]++ }
 func (c *Ctx) Nontrivial(k string) { c.Distinct[k] = true }
 
 func (c *Ctx) Violation(prop, sig, what, replay string) {
+	c.vmu.Lock()
+	defer c.vmu.Unlock()
 	k := prop + "/" + sig
 	c.ViolCount[k]++
 	if c.ViolCount[k] <= 3 && len(c.Viol) < 300 {
